@@ -46,9 +46,16 @@ def fresh(k, p):
     return ("fresh", min(k, 4), p)
 
 
+def mix(p):
+    """either the parameter itself or a fresh container of its objects: the *elements* are owned either way"""
+    return ("mix", p)
+
+
 def elem(v):
     if v[0] == "own":
         return v
+    if v[0] == "mix":
+        return own(v[1])
     if v[0] == "fresh":
         if v[2] is None:
             return FRESH
@@ -77,6 +84,10 @@ def join(a, b):
         return a
     if a[0] == "tuple" and b[0] == "tuple" and len(a[1]) == len(b[1]):
         return ("tuple", [join(x, y) for x, y in zip(a[1], b[1])])
+    # p itself on one path, a fresh wrapper around p's objects on the other (`if not isinstance(x, Score): x = Score(x)`)
+    for u, v in ((a, b), (b, a)):
+        if u[0] in ("own", "mix") and ((v[0] == "fresh" and v[1] == 1 and v[2] == u[1]) or (v[0] in ("own", "mix") and v[1] == u[1])):
+            return mix(u[1])
     # wholly fresh joined with fresh-around-owned stays "fresh container, maybe owned inside"
     if a[0] == "fresh" and b[0] == "fresh":
         if a[2] is None:
@@ -99,11 +110,12 @@ def join_all(vs):
 
 class Summary:
     def __init__(self):
-        self.mutates: Dict[int, Tuple] = {}  # param index -> (node, func qname, description, call path)
+        self.mutates: Dict[int, dict] = {}  # param index -> first mutation event (node, func, desc, call path)
+        self.all_mutations: Dict[int, List[dict]] = {}  # param index -> events with distinct root causes (capped)
         self.returns = TOP  # ('fresh'|'own', idx) form using ('own', idx) / ('fresh', k, idx) / FRESH / TOP
 
     def sig(self):
-        return (tuple(sorted(self.mutates)), self.returns)
+        return (tuple(sorted((i, tuple(sorted(e["root"] for e in evs))) for i, evs in self.all_mutations.items())), self.returns)
 
 
 class Ownership:
@@ -149,6 +161,9 @@ class Ownership:
             idx = ev["param_index"]
             if idx not in s.mutates:
                 s.mutates[idx] = ev
+            lst = s.all_mutations.setdefault(idx, [])
+            if all(e["root"] != ev["root"] for e in lst) and len(lst) < 8:
+                lst.append(ev)
         if A.returns is not None:
             s.returns = A.returns
         self.events[f.qname] = A.events
@@ -262,6 +277,14 @@ class _Analysis:
                 env2 = dict(env)
                 for t in a.targets:
                     self.assign(t, v, env2, a.value)
+                    if isinstance(t, ast.Subscript):
+                        root, depth = self._root_depth(t)
+                        cur = env2.get(root) if root else None
+                        owner = v[1] if v[0] == "own" else (v[2] if v[0] == "fresh" else None)
+                        if cur is not None and cur[0] == "fresh" and owner is not None and (cur[2] is None or cur[2] == owner):
+                            env2[root] = fresh(max(depth + (v[1] if v[0] == "fresh" else 0), cur[1] if cur[2] is not None else 0), owner)
+                        elif cur is not None and cur[0] == "fresh" and v == TOP:
+                            env2[root] = TOP
                 return env2
             if isinstance(a, ast.AnnAssign):
                 env2 = dict(env)
@@ -291,7 +314,7 @@ class _Analysis:
                 return env
             if isinstance(a, ast.Expr):
                 self.ev(a.value, env)
-                return env
+                return self._absorb(a.value, env)
             if isinstance(a, (ast.Return, ast.Raise, ast.Assert)):
                 for c in ast.iter_child_nodes(a):
                     if isinstance(c, ast.expr):
@@ -326,6 +349,49 @@ class _Analysis:
             return env2
         return env
 
+    def _root_depth(self, expr):
+        """(root local name, number of subscript levels) of a container expression like d[k] / d[k][j] / d."""
+        depth = 0
+        while isinstance(expr, ast.Subscript):
+            expr = expr.value
+            depth += 1
+        if isinstance(expr, ast.Name):
+            return expr.id, depth
+        return None, 0
+
+    def _absorb(self, call, env):
+        """x.append(v) / x.add(v) / x.extend(vs) / x[k].append(v) ... on a *fresh local* container: the container now holds
+        (layers around) objects of v's owner."""
+        if not (isinstance(call, ast.Call) and isinstance(call.func, ast.Attribute) and call.args):
+            return env
+        m = call.func.attr
+        if m not in ("append", "add", "extend", "insert", "update", "setdefault", "appendleft"):
+            return env
+        root, depth = self._root_depth(call.func.value)
+        if root is None or root not in env:
+            return env
+        cur = env[root]
+        if cur[0] != "fresh":
+            return env
+        v = self.ev(call.args[-1], env)
+        if m in ("extend", "update"):
+            v = elem(v)
+        owner = v[1] if v[0] == "own" else (v[2] if v[0] == "fresh" else None)
+        if owner is None:
+            if v == TOP:
+                env2 = dict(env)
+                env2[root] = TOP  # unknown content: no longer provably fresh-only
+                return env2
+            return env
+        if cur[2] is not None and cur[2] != owner:
+            env2 = dict(env)
+            env2[root] = TOP
+            return env2
+        layers = depth + 1 + (v[1] if v[0] == "fresh" else 0)
+        env2 = dict(env)
+        env2[root] = fresh(max(layers, cur[1] if cur[2] is not None else 0), owner)
+        return env2
+
     def bind_iter(self, target, iter_expr, itval, env2, env):
         # enumerate / zip keep positions
         if isinstance(iter_expr, ast.Call) and isinstance(iter_expr.func, ast.Name) and isinstance(target, (ast.Tuple, ast.List)):
@@ -359,14 +425,18 @@ class _Analysis:
             self.assign(t.value, v, env, None)
 
     # ---------------------------------------------------------------- effects
-    def event(self, p, node, desc, path=None):
+    def event(self, p, node, desc, path=None, root=None):
         if not self._record:
             return
         if p not in self.params:
             return
+        path = path or [self.f.qname]
+        if root is None:
+            tag = norm(node.func) if isinstance(node, ast.Call) else norm(node)
+            root = f"{path[-1]}|{tag[:40]}"
         self.events.append({"param": p, "param_index": self.params.index(p), "node": node, "func": self.f.qname,
                             "file": self.f.module.relpath, "line": getattr(node, "lineno", 0), "desc": desc,
-                            "path": path or [self.f.qname]})
+                            "path": path, "root": root})
 
     def store_effect(self, t, env, kind):
         base = self.ev(t.value, env)
@@ -401,7 +471,7 @@ class _Analysis:
         if evs:
             m, inner = evs[0]
             self.event(v[1], expr, f"iterating `{norm(expr)[:40]}` calls {m.qname.split(':')[1]}, which stores on its receiver",
-                       path=[self.f.qname] + inner["path"])
+                       path=[self.f.qname] + inner["path"], root=inner["root"])
 
     # ------------------------------------------------------------- expressions
     def ev(self, e, env):
@@ -419,8 +489,10 @@ class _Analysis:
                     # property read: effects + result from the getter's summary
                     muts = [self.O.summaries[g.qname].mutates.get(0) for g in getters]
                     if all(m is not None for m in muts) and isinstance(e.ctx, ast.Load):
-                        self.event(base[1], e, f"reading property `{norm(e)[:50]}` runs {getters[0].qname.split(':')[1]}, which writes to its receiver",
-                                   path=[self.f.qname] + muts[0]["path"])
+                        for inner in self.O.summaries[getters[0].qname].all_mutations.get(0, [muts[0]]):
+                            self.event(base[1], e, f"reading property `{norm(e)[:50]}` runs {getters[0].qname.split(':')[1]}, which writes to its receiver "
+                                                   f"({inner['desc'][:80]})",
+                                       path=[self.f.qname] + inner["path"], root=inner["root"])
                     rs = {self.O.summaries[g.qname].returns for g in getters}
                     if len(rs) == 1:
                         return self._subst(rs.pop(), [base])
@@ -430,6 +502,8 @@ class _Analysis:
                 return base
             if base[0] == "fresh":
                 return base if base[2] is None else TOP
+            if base[0] == "mix":
+                return base
             return TOP
         if isinstance(e, ast.Subscript):
             base = self.ev(e.value, env)
@@ -563,6 +637,10 @@ class _Analysis:
             if name in ("map", "zip", "enumerate"):
                 return TOP
             if name == "dict":
+                if len(argv) == 1 and not kwv and argv[0][0] == "fresh":
+                    return argv[0]  # copy of a fresh mapping: same nesting, new outer layer
+                if len(argv) == 1 and not kwv and argv[0][0] == "own":
+                    return fresh(1, argv[0][1])
                 return wrap(join_all(list(kwv.values()) + [elem(elem(a)) for a in argv])) if (argv or kwv) else FRESH
             if name in ("next",):
                 return elem(argv[0]) if argv else TOP
@@ -590,11 +668,13 @@ class _Analysis:
                     return argv[0]
                 if tgt.startswith("numpy.") or tgt.startswith("scipy."):
                     return FRESH
+                if tgt in ("collections.defaultdict", "collections.OrderedDict", "collections.deque", "collections.Counter"):
+                    return FRESH
                 return TOP
         # ---- built-in mutator methods on an owned receiver
         if recv is not None and isinstance(fn, ast.Attribute):
             m = fn.attr
-            repo_targets = [t for t in targets if t[0] in ("func", "weakfunc")]
+            repo_targets = [t for t in targets if t[0] in ("func", "weakfunc", "ctor")]
             if m in MUTATORS and recv[0] == "own" and not repo_targets:
                 rt = self.inf.type_at(self.f, fn.value)
                 # a definitely immutable / non-container receiver cannot be mutated this way
@@ -660,8 +740,8 @@ class _Analysis:
             for ms in mut_sets[1:]:
                 common &= set(ms)
             for key in common:
-                p, info = key, mut_sets[0][key]
-                self.event(p, e, info["desc"], path=info["path"])
+                info = mut_sets[0][key]
+                self.event(key[0], e, info["desc"], path=info["path"], root=info["root"])
         r = results[0]
         for x in results[1:]:
             r = join(r, x)
@@ -675,7 +755,8 @@ class _Analysis:
         summ = self.O.summaries[g.qname]
         params = g.params
         found = {}
-        for idx, inner in summ.mutates.items():
+        for idx, inners in summ.all_mutations.items():
+          for inner in inners:
             v = None
             if idx < len(vals):
                 v = vals[idx]
@@ -684,7 +765,7 @@ class _Analysis:
             if v is None or v[0] != "own":
                 continue
             pname = params[idx] if idx < len(params) else f"#{idx}"
-            found[v[1]] = {"desc": f"`{norm(call)[:60]}` passes an object of `{v[1]}` as `{pname}` to {g.qname.split(':')[1]}, which mutates it "
-                                   f"({inner['desc'][:120]})",
-                           "path": [self.f.qname] + inner["path"]}
+            found[(v[1], inner["root"])] = {"desc": f"`{norm(call)[:60]}` passes an object of `{v[1]}` as `{pname}` to {g.qname.split(':')[1]}, which mutates it "
+                                                    f"({inner['desc'][:120]})",
+                                            "path": [self.f.qname] + inner["path"], "root": inner["root"]}
         mut_sets.append(found)
